@@ -202,7 +202,7 @@ class State:
         s.fresh += 1; return z3.Real('%s!%d' % (name, s.fresh))
 
 class Limits:
-    def __init__(s, max_steps=4000000, max_paths=4000, feas_ms=10000, max_seconds=900, max_visits=None, visit_fn='', visit_block=''):
+    def __init__(s, max_steps=4000000, max_paths=4000, feas_ms=10000, max_seconds=300, max_visits=None, visit_fn='', visit_block=''):
         s.max_steps = max_steps; s.max_paths = max_paths; s.feas_ms = feas_ms; s.max_seconds = max_seconds; s.max_visits = max_visits; s.visit_fn = visit_fn; s.visit_block = visit_block
 
 UF = {}
